@@ -79,6 +79,7 @@ VH_NOINSTR int main(int argc, char** argv) {
   int init = atoi(argv[2]);
   vh_parse(argv[3]);
   fiber_manager_init(k);
+  vh_rt_prepare(); /* run queues named, main fiber registered: the runtime model can follow this log too */
   VH_DIRTY(sem);
   fiber_semaphore_init(&sem, init);
   avail = init;
